@@ -168,4 +168,30 @@
     }\
 
 
+#if defined(AVEL_SSE2)
+namespace avel {
+
+    ///
+    /// Byte-granular masked store. MASKMOVDQU may fault when bytes that the
+    /// mask leaves out lie in an inaccessible page (and it does so even for
+    /// an all-zero mask), so partial stores write the selected bytes one by
+    /// one instead.
+    ///
+    AVEL_FINL void masked_store_bytes(__m128i value, __m128i mask, char* ptr) {
+        alignas(16) unsigned char value_bytes[16];
+        alignas(16) unsigned char mask_bytes[16];
+
+        _mm_store_si128(reinterpret_cast<__m128i*>(value_bytes), value);
+        _mm_store_si128(reinterpret_cast<__m128i*>(mask_bytes), mask);
+
+        for (int i = 0; i < 16; ++i) {
+            if (mask_bytes[i] & 0x80) {
+                ptr[i] = static_cast<char>(value_bytes[i]);
+            }
+        }
+    }
+
+}
+#endif
+
 #endif //AVEL_VECTORS_COMMON_HPP
